@@ -12,7 +12,7 @@ ASSUME = ["standard interpretation of ZX generators as in spec/ZX.tla (phases in
           "bounded: circuits of MC_Gates restricted to the gate set of the statement, ZX diagrams of the builder "
           "in ZX!ZBuild"]
 SUPPORTED = {"Ket", "Bra", "H", "X", "Y", "Z", "CX", "CZ", "Rx", "Rz", "CRz", "CRx", "CU1", "SWAP", "scalar"}
-CONST = {"quick": {"replay": 500, "zx": (2, 2), "zx_replay": 600}, "thorough": {"replay": 6000, "zx": (2, 3), "zx_replay": 20000}}
+CONST = {"quick": {"replay": 500, "zx": (2, 2), "zx_replay": 600}, "thorough": {"replay": 4000, "zx": (2, 3), "zx_replay": 6000}}
 EMPTY_ZX = {"dom": 0, "layers": []}
 EMPTY_C = {"dom": 0, "layers": []}
 
